@@ -22,7 +22,7 @@ fn nul() -> AppliedId {
 impl Drv for Arith {
     const NAME: &'static str = "Arith";
     fn sig() -> Sig {
-        &[("lam", "b"), ("app", "cc"), ("var", "s"), ("let", "bc"), ("add", "cc"), ("mul", "cc"), ("0", ""), ("42", ""), ("map", ""), ("a-b", "")]
+        &[("lam", "b"), ("app", "cc"), ("var", "s"), ("let", "bc"), ("add", "cc"), ("mul", "cc"), ("0", ""), ("42", ""), ("map", ""), ("a-b", ""), ("a:=b", ""), ("a,b", ""), ("a==b", "")]
     }
     fn mk(op: &str, s: &[Slot]) -> Self {
         match op {
